@@ -188,13 +188,45 @@ fn run_script(sc: &Scenario, ctx: &Arc<Ctx>, pool: Option<Arc<rayon::ThreadPool>
     let script = sc.script.clone().unwrap_or_default();
     let script = &script;
     {
-        let world = new_world();
-        let mut ad = reg.builder.build_async(world);
+        // a resource whose destructor tells the harness that the world has been dropped (script op 'K': the dispatcher
+        // is dropped while a dispatch may be in flight; the background job owns the world until it is done)
+        struct DropSignal(Arc<(shuttle::sync::Mutex<bool>, shuttle::sync::Condvar)>, bool);
+        impl Drop for DropSignal {
+            fn drop(&mut self) {
+                if self.1 {
+                    *self.0 .0.lock().unwrap() = true;
+                    self.0 .1.notify_all();
+                }
+            }
+        }
+        let controlled = rayon::verif::controlled();
+        let gone = Arc::new((shuttle::sync::Mutex::new(false), shuttle::sync::Condvar::new()));
+        let mut world = new_world();
+        let drops = script.contains('K');
+        if drops && controlled {
+            world.insert(DropSignal(gone.clone(), true));
+        }
+        let mut ad_slot = Some(reg.builder.build_async(world));
         let mut script: Vec<char> = script.chars().collect();
-        script.push('O'); // final world(): fetch the results
+        if !drops {
+            script.push('O'); // final world(): fetch the results
+        }
         for (k, op) in script.iter().enumerate() {
             sched_point();
             ctx.log(Ev::Script, k, 0);
+            if *op == 'K' {
+                // drop the dispatcher, then wait until the world it owned has been dropped (the job is over)
+                drop(ad_slot.take());
+                if controlled {
+                    let mut g = gone.0.lock().unwrap();
+                    while !*g {
+                        g = gone.1.wait(g).unwrap();
+                    }
+                }
+                ctx.log(Ev::Script, k, 1);
+                break;
+            }
+            let ad = ad_slot.as_mut().unwrap();
             let r = catch_unwind(AssertUnwindSafe(|| -> u16 {
                 match op {
                     'D' => {
@@ -233,9 +265,11 @@ fn run_script(sc: &Scenario, ctx: &Arc<Ctx>, pool: Option<Arc<rayon::ThreadPool>
                 }
             }
         }
-        let w: &shred::World = ad.world();
-        out.borrow = world_borrow_state(w);
-        out.values = if out.borrow.iter().all(|b| *b == 0) { world_values(w) } else { vec![] };
+        if let Some(ad) = ad_slot.as_mut() {
+            let w: &shred::World = ad.world();
+            out.borrow = world_borrow_state(w);
+            out.values = if out.borrow.iter().all(|b| *b == 0) { world_values(w) } else { vec![] };
+        }
     }
     out
 }
@@ -913,6 +947,27 @@ pub fn seq_expectation(sc: &Scenario, values: &[u64], local: &[u64]) -> Vec<u64>
     r.unwrap_or_default()
 }
 
+/// World values, per-system observations and local counters after `k` sequential rounds (dispatch_seq + thread-local
+/// tail) of a fresh twin on a fresh world: what an async script of k `dispatch ... wait` rounds has to produce.
+pub fn seq_rounds(sc: &Scenario, k: u32) -> (Vec<u64>, Vec<Vec<u64>>, Vec<u64>) {
+    let was = rayon::verif::controlled();
+    rayon::verif::set_controlled(false);
+    let info = PlanInfo::of(&sc.ops);
+    let ctx = Ctx::new(info.n(), Ctx::identity_map());
+    let r = (|| {
+        let mut d = build_plan(&sc.ops, &ctx, None).ok()?;
+        let w = new_world();
+        for i in 1..=k {
+            ctx.dispatch_no.store(i, Ordering::Relaxed);
+            d.dispatch_seq(&w);
+            d.dispatch_thread_local(&w);
+        }
+        Some((world_values(&w), ctx.obs.lock().unwrap().clone(), ctx.local.lock().unwrap().clone()))
+    })();
+    rayon::verif::set_controlled(was);
+    r.unwrap_or_default()
+}
+
 /// C15 oracle over the log of an async script run.
 pub fn analyze_async(sc: &Scenario, info: &PlanInfo, out: &ExecOut) -> Vec<Viol> {
     let mut vs = Vec::new();
@@ -935,7 +990,8 @@ pub fn analyze_async(sc: &Scenario, info: &PlanInfo, out: &ExecOut) -> Vec<Viol>
         }
         vs.push(v("C15", "async-call-panicked", format!("a call of the script panicked: {}", r)));
     }
-    let script: Vec<char> = sc.script.as_deref().unwrap_or("").chars().chain(std::iter::once('O')).collect();
+    let drops_dispatcher = sc.script.as_deref().unwrap_or("").contains('K');
+    let script: Vec<char> = if drops_dispatcher { sc.script.as_deref().unwrap_or("").chars().collect() } else { sc.script.as_deref().unwrap_or("").chars().chain(std::iter::once('O')).collect() };
     let log = &out.log;
     // C13: every setup() call that returned has reached every system once - also while a dispatch is in flight
     if sc.panics.is_empty() && sc.setup_panics.is_empty() && !out.setups.is_empty() {
@@ -1006,6 +1062,13 @@ pub fn analyze_async(sc: &Scenario, info: &PlanInfo, out: &ExecOut) -> Vec<Viol>
                             }
                         }
                         dispatched_since_wait = false;
+                    }
+                    if op == 'K' && returned_ok && sc.panics.is_empty() {
+                        // the dispatcher was dropped and the world it owned is gone: every dispatch() that returned has
+                        // been carried out in full by then (the background job owns world and stages until it is done)
+                        if let Some(x) = all_done(&begun, &ended, issued) {
+                            vs.push(v("C04", "dispatch-abandoned-when-dispatcher-dropped", format!("the dispatcher was dropped after {} dispatch() call(s) and its world has been dropped, but system {} has run {} times", issued, x, begun[x])));
+                        }
                     }
                     match op {
                         'W' | 'X' | 'O' | 'M' | 'S' if returned_ok => {
@@ -1097,6 +1160,35 @@ pub fn analyze_async(sc: &Scenario, info: &PlanInfo, out: &ExecOut) -> Vec<Viol>
         if let Some(le) = last_end_of_round.get(r - 1) {
             if first_begin_of_round[r] < *le {
                 vs.push(v("C15", "dispatch-overtaken", format!("a system of dispatch {} began (event {}) before dispatch {} had finished (event {})", r + 1, first_begin_of_round[r], r, le)));
+            }
+        }
+    }
+    // C05: a script made of `dispatch ... wait` rounds (anything but a dispatch in between) leaves the world, what every
+    // system saw and every system's state exactly as the same number of sequential rounds does
+    if sc.panics.is_empty() && sc.setup_panics.is_empty() && out.results.iter().all(|r| r.is_none()) && !out.values.is_empty() {
+        let s: String = sc.script.clone().unwrap_or_default();
+        let mut rounds = 0u32;
+        let mut ok = !s.is_empty();
+        let mut open = false;
+        for ch in s.chars() {
+            match ch {
+                'D' if !open => open = true,
+                'D' => ok = false,
+                'W' if open => {
+                    open = false;
+                    rounds += 1;
+                }
+                'W' => ok = false,
+                'S' => ok = false,
+                _ => {}
+            }
+        }
+        if ok && !open && rounds > 0 {
+            let (ev, eo, el) = seq_rounds(sc, rounds);
+            if !ev.is_empty() && (ev != out.values || eo != out.obs || el != out.local) {
+                let has_tl_batch = info.nodes.iter().any(|n| tl_in_batch(info, n.id) && (n.eff_reads | n.eff_writes) != 0);
+                let sig = if has_tl_batch { "tl-in-batch-not-in-union" } else { "async-outcome-differs-from-sequential" };
+                vs.push(v("C05", sig, format!("after {} dispatch ... wait rounds the world is {:?} and the systems' states {:?}; {} sequential rounds give {:?} / {:?}", rounds, out.values, out.local, rounds, ev, el)));
             }
         }
     }
